@@ -82,13 +82,16 @@ func monthsView(c *Ctx, r *Report, rule string, fn *ssa.Function, kind string, p
 		}
 	}
 	var problems []string
-	// the scan starts at the first element and moves one element at a time
+	backward := false
+	// the scan starts at one end and moves one element at a time
 	for _, ins := range li.header.Instrs {
 		phi, ok := ins.(*ssa.Phi)
 		if !ok {
 			break
 		}
 		if strings.HasSuffix(phi.Type().String(), "list.Element") {
+			// from the first month forward, or from the last month backward, one element at a time
+			start, step := "", ""
 			for i, e := range phi.Edges {
 				call, isCall := e.(*ssa.Call)
 				name := ""
@@ -96,12 +99,20 @@ func monthsView(c *Ctx, r *Report, rule string, fn *ssa.Function, kind string, p
 					name = call.Common().StaticCallee().Name()
 				}
 				if li.body[li.header.Preds[i]] {
-					if name != "Next" || call.Common().Args[0] != ssa.Value(phi) {
-						problems = append(problems, "the scan does not advance by exactly one element (e.Next()) per iteration")
+					step = name
+					if (name != "Next" && name != "Prev") || call.Common().Args[0] != ssa.Value(phi) {
+						problems = append(problems, "the scan does not advance by exactly one element (e.Next() / e.Prev()) per iteration")
 					}
-				} else if name != "Front" {
-					problems = append(problems, "the scan does not start at the first month of the table (Front()): leading months are skipped")
+				} else {
+					start = name
 				}
+			}
+			switch {
+			case start == "Front" && step == "Next":
+			case start == "Back" && step == "Prev":
+				backward = true
+			default:
+				problems = append(problems, fmt.Sprintf("the scan starts at %s() and moves by %s(): it does not run over the whole table from one end to the other", start, step))
 			}
 		}
 		if isIntType(phi.Type()) {
@@ -199,8 +210,12 @@ func monthsView(c *Ctx, r *Report, rule string, fn *ssa.Function, kind string, p
 					for blk := range fr.phiFrom {
 						for _, ins := range blk.Instrs {
 							if call, ok := ins.(*ssa.Call); ok {
-								if callee := call.Common().StaticCallee(); callee != nil && callee.Name() == "PushBack" {
+								if callee := call.Common().StaticCallee(); callee != nil && (callee.Name() == "PushBack" || callee.Name() == "PushFront") && strings.HasPrefix(callee.String(), "(*container/list.List).") {
 									admitted = true
+									// the months are listed in the table's order: appended on a forward scan, prepended on a backward one
+									if (callee.Name() == "PushFront") != backward {
+										problems = append(problems, "the admitted months are listed in the reverse of the table's order")
+									}
 								}
 								if bi, ok := call.Common().Value.(*ssa.Builtin); ok && bi.Name() == "append" {
 									admitted = true
@@ -526,76 +541,61 @@ func r06_3(c *Ctx, r *Report) {
 
 func r06_4(c *Ctx, r *Report) {
 	const rule = "R06.4"
-	r.rule(rule, "The override-year membership test visits every element. contains(arr, n), which decides whether a year is in LEAP_11 / LEAP_12, is a linear scan from 0 to len(arr) with step 1 comparing n with arr[i]; both override tables are strictly increasing and disjoint. (Any other search shape is reported as undecided.)")
+	r.rule(rule, "The override-year membership test visits every element. contains(arr, n), which decides whether a year is in LEAP_11 / LEAP_12, is followed by the evaluator (its scan as a table over the iteration number, whichever way it runs) on tables of 0, 1 and 4 years: it answers true exactly for the years of the table — the first and the last included; both override tables are strictly increasing and disjoint.")
 	fn := c.Fn(r, rule, "calendar.contains")
 	if fn != nil {
-		loops, _ := findLoops(fn)
-		okk := false
-		detail := "no loop that visits arr[0], arr[1], ..., arr[len(arr)-1] in turn was found (for i := 0; i < len(arr); i++, or for range arr)"
-		isLen := func(v ssa.Value) bool {
-			call, ok := v.(*ssa.Call)
-			if !ok {
-				return false
-			}
-			b, ok := call.Common().Value.(*ssa.Builtin)
-			return ok && b.Name() == "len" && call.Common().Args[0] == ssa.Value(fn.Params[0])
-		}
-		for _, li := range loops {
-			for _, ins := range li.header.Instrs {
-				phi, isPhi := ins.(*ssa.Phi)
-				if !isPhi {
-					break
-				}
-				var init int64 = -99
-				var next ssa.Value
-				for i, e := range phi.Edges {
-					if li.body[li.header.Preds[i]] {
-						if bo, ok := e.(*ssa.BinOp); ok && bo.Op == token.ADD && bo.X == ssa.Value(phi) {
-							if k, ok := constInt(bo.Y); ok && k == 1 {
-								next = bo
+		// followed by the evaluator (the scan as a table over the iteration number, whichever way it runs) on
+		// tables of 0, 1 and 4 distinct years, asked for each element, and for years below, between and above
+		var bad []string
+		n := 0
+		if len(fn.Params) == 2 {
+			for _, tab := range [][]int64{{}, {7}, {3, 8, 15, 22}} {
+				asks := append([]int64{1, 9, 30}, tab...)
+				for _, ask := range asks {
+					var leaf leafX
+					leaf = func(fr *evalFrame, v ssa.Value) (interface{}, bool) {
+						if fr.parent == nil && v == ssa.Value(fn.Params[1]) {
+							return ask, true
+						}
+						if call, ok := v.(*ssa.Call); ok {
+							if b, isB := call.Common().Value.(*ssa.Builtin); isB && b.Name() == "len" && len(call.Common().Args) == 1 {
+								if _, o := fr.origin(call.Common().Args[0]); o == ssa.Value(fn.Params[0]) {
+									return int64(len(tab)), true
+								}
 							}
 						}
-					} else if k, ok := constInt(e); ok {
-						init = k
-					}
-				}
-				iff, ok := li.header.Instrs[len(li.header.Instrs)-1].(*ssa.If)
-				if next == nil || !ok {
-					continue
-				}
-				bo, ok := iff.Cond.(*ssa.BinOp)
-				if !ok || bo.Op != token.LSS || !isLen(bo.Y) {
-					continue
-				}
-				// the index that is tested against len(arr) is the one every element access in the loop uses
-				var counter ssa.Value
-				switch {
-				case init == 0 && bo.X == ssa.Value(phi):
-					counter = phi
-				case init == -1 && bo.X == next:
-					counter = next
-				default:
-					continue
-				}
-				uses, other := 0, 0
-				for blk := range li.body {
-					for _, in2 := range blk.Instrs {
-						if ia, ok := in2.(*ssa.IndexAddr); ok && ia.X == ssa.Value(fn.Params[0]) {
-							if ia.Index == counter {
-								uses++
-							} else {
-								other++
+						if ld, ok := v.(*ssa.UnOp); ok && ld.Op == token.MUL {
+							if ia, ok := ld.X.(*ssa.IndexAddr); ok {
+								if _, o := fr.origin(ia.X); o == ssa.Value(fn.Params[0]) {
+									iv, ok := evalWith(fr, ia.Index, leaf)
+									i, isI := iv.(int64)
+									if !ok || !isI || i < 0 || int(i) >= len(tab) {
+										return nil, false
+									}
+									return tab[i], true
+								}
 							}
 						}
+						return nil, false
 					}
-				}
-				if uses >= 1 && other == 0 {
-					okk = true
-					detail = "the counter runs from 0 while < len(arr) in steps of 1 and every element access is arr[counter]"
+					ev := &evaluator{inline: inlineLibrary, leaf: leaf}
+					res, outcome := ev.run(fn, nil, nil, nil, nil)
+					n++
+					want := false
+					for _, y := range tab {
+						if y == ask {
+							want = true
+						}
+					}
+					if outcome != "return" || len(res) != 1 {
+						bad = append(bad, fmt.Sprintf("table %v, year %d: not followed (%s %s)", tab, ask, outcome, ev.fail))
+					} else if res[0] != interface{}(want) {
+						bad = append(bad, fmt.Sprintf("table %v, year %d: %v, expected %v", tab, ask, res[0], want))
+					}
 				}
 			}
 		}
-		r.check(okk && len(loops) == 1, rule, "calendar.contains scans the whole table", c.fnPos(fn), detail)
+		r.check(len(bad) == 0 && n == 14, rule, "calendar.contains finds exactly the years of the table", c.fnPos(fn), fmt.Sprintf("%d (table, year) cases followed; deviations: %v", n, headList(bad, 3)))
 	}
 	var l11, l12 []int64
 	for _, t := range []struct {
